@@ -91,6 +91,31 @@ CLAIMED["C09"] = dict(
     technique="Coq proof over the replay model + in-Coq correspondence of incompatible-data pairs",
     design="8 C09")
 
+CLAIMED["C05"] = dict(
+    text="Coq: CSC-column model of the sparse output path; element-wise product, scaling, dense->CSC conversion and sparse dummy encoding hold at every row "
+         "the numbers of the dense computation; the regenerated entry-point table forwards drop_rows on every edge. /repo's sparse primitives are "
+         "compared with the model; pandas/numpy/sparse x 6 entry points x {pandas, narwhals/pandas, narwhals/pyarrow} are compared pairwise on the "
+         "implementation (same numbers, same column order).",
+    note="Coq kernel + vm_compute; narwhals/pyarrow twins are a second implementation (differential only); container construction trusted",
+    technique="Coq proof of sparse-refines-dense + in-Coq correspondence of sparse primitives + differential testing across outputs, entry points and materializers",
+    design="8 C05")
+CLAIMED["C08"] = dict(
+    text="The dtype->kind table of both materializers is regenerated from /repo each run (one Series per dtype through the real _is_categorical); Coq "
+         "proves over it that text and categorical dtypes are categorical and numeric dtypes (incl. bool) numerical for both materializers, and that "
+         "the build model encodes categoricals as 0/1 indicators in sorted/declared level order and passes numerics through. Numeric cells, level "
+         "order and pass-through are checked for every dtype x output x {pandas, narwhals/pandas, narwhals/arrow}.",
+    note="Coq kernel + vm_compute; pandas/narwhals dtype predicates are library behaviour captured in the regenerated oracle table",
+    technique="finite-domain Coq proof over a regenerated dtype table + build-model correspondence + exhaustive dtype sweep on the implementation",
+    design="8 C08")
+CLAIMED["C10"] = dict(
+    text="Gallina model of the metadata derived from `structure`. Theorems: per-term ranges concatenate to 0..ncols-1; a term looked up by object or by its "
+         "printed form in ANY factor order (sorting is canonical: total-order proof for Python string order) gets the range of its own row; a column "
+         "name selects a position carrying that name; the built matrix's labels are the structure's column entries. Model answers = implementation "
+         "answers for every accessor; subset regeneration checked directly.",
+    note="Coq kernel + vm_compute; dict lookup of str in Term-keyed mapping modelled as sorted-key equality (hash collisions ignored); subset on implementation only",
+    technique="Coq proof (ranges partition, canonical sorting, dict insert semantics) + in-Coq correspondence of every metadata accessor",
+    design="8 C10")
+
 NOT_YET = {}
 
 
